@@ -164,6 +164,15 @@ func (m *M) check(b, route string, a Args, pre *snapshot, r *world.Result) {
 		}
 		m.Out.Count("c01-licence:" + lic)
 
+		// ------------- C09: login itself starts the idle clock -------------------------------
+		if cfg.Has("expire") && r.Wrote && post.Sess["last_action"] == "" {
+			how := lic
+			if how == "" {
+				how = route
+			}
+			m.violate("C09", "login-unstamped:"+how, fmt.Sprintf("a %s login of %q left the session without a last-activity stamp: its idle clock only starts at the next request", how, U), b)
+		}
+
 		// ------------- C02: with a second factor, primary credentials only park ---------
 		if u != nil && (route == "login" || route == "otplogin" || route == "recend") {
 			if (u.TOTPSecretKey != "" && cfg.Has("totp")) || (u.SMSPhoneNumber != "" && cfg.Has("sms")) {
